@@ -90,3 +90,36 @@ def dump_replay(path, meta, uni, trace, verdict):
                    "universe": {s: {"abstract": uni.abs[s], "concrete": uni.conc[s]} for s in uni.order},
                    "trace": [{k: (sorted(v) if isinstance(v, (set, frozenset)) else v) for k, v in ln.items()} for ln in trace]},
                   fp, indent=1, default=lambda o: sorted(o) if isinstance(o, (set, frozenset)) else str(o))
+
+
+def validate_many(jobs_spec, batch=250, jobs=16, timeout=1200):
+    """
+    jobs_spec: list of dicts {uni, backend, traces, max_limit?, policy_refused?}
+    Returns list of (verdicts, stats) per job; all TLC batches share one pool.
+    """
+    all_batches = []
+    for n, js in enumerate(jobs_spec):
+        traces = js["traces"]
+        idx = [k for k, tr in enumerate(traces) if tr]
+        for b in range(0, len(idx), batch):
+            chunk = idx[b:b + batch]
+            text = store_trace_module("@@MODNAME@@", js["uni"], js["backend"], [traces[k] for k in chunk],
+                                      js.get("max_limit", 600000), js.get("policy_refused", ()))
+            all_batches.append((n, chunk, (text, len(all_batches), len(chunk), timeout)))
+    with concurrent.futures.ThreadPoolExecutor(max_workers=max(1, min(jobs, len(all_batches) or 1))) as ex:
+        results = list(ex.map(_run_batch, [b[2] for b in all_batches]))
+    out = []
+    for js in jobs_spec:
+        out.append(({k: [] for k in range(len(js["traces"]))}, {"generated": 0, "distinct": 0, "batches": 0, "wall_s": 0.0}))
+    for (n, chunk, _), res in zip(all_batches, results):
+        if not res["ok"]:
+            raise tlc.TlcError("trace validation failed to run: " + tlc.tlc_failed_how(res["out"]))
+        verdicts, total = out[n]
+        total["generated"] += res["stats"]["generated"]
+        total["distinct"] += res["stats"]["distinct"]
+        total["batches"] += 1
+        total["wall_s"] += res["wall_s"]
+        for pos, k in enumerate(chunk):
+            v = res["verdicts"][pos + 1]
+            verdicts[k] = sorted([list(x) for x in v["bad"]], key=lambda x: (x[1], x[0]))
+    return out
